@@ -50,9 +50,33 @@ CLAIMED["C05"] = {
     "technique": "Coq proof (structural: reset state = constructor state) + correspondence",
 }
 
+CLAIMED["C06"] = {
+    "text": "Theorem (for the whole closed system Bot+Tower+rhythm+clock, every configuration, every timed history of "
+            "messages, strikes and ticks, every fuel): the start counter, the row number and the generator's start "
+            "stroke stay in step (invariant Jw), hence the start-stroke assertion of the row turnover can never fire and "
+            "the method can only start on its start stroke; Go sets the counter to 'first start-stroke row beginning "
+            "after the row of the Go'; no start before the counter is 0; Go during the method is a no-op. Model tied "
+            "to the real Bot by exhaustive placements of Go/That's all/Rounds/Stand/Look to over the first rows (both "
+            "start strokes, up-down-in, covers) plus random sessions; rows also judged by an independent row-level "
+            "TouchSpec oracle. Granularity: messages land inside sleeps (H); statement-level races inside "
+            "start_next_row are NOT covered by the theorem (see DESIGN.md known findings).",
+    "design_ref": "DESIGN.md section 3, C06", "note": TB,
+    "technique": "Coq proof: inductive invariant over all steps of the system model (induction on fuel) + correspondence",
+}
+CLAIMED["C07"] = {
+    "text": "Theorems on the control skeleton of the row turnover, for all control states and inputs: ringing stops "
+            "only at a turnover into a handstroke and only because a stand was pending or stop-at-rounds saw rounds "
+            "(so bells are left at hand); a pending stand acts at the next handstroke and is carried over a backstroke; "
+            "That's all gives rounds at once after a rounds row and exactly one more method row otherwise. Model "
+            "tied to the real Bot by exhaustive placement of stop calls; TouchSpec oracle checks rows rung, the point "
+            "of standing and the parity of strikes per bell.",
+    "design_ref": "DESIGN.md section 3, C07", "note": TB,
+    "technique": "Coq proof by case analysis of the control step function + correspondence",
+}
+
 _NYI = "check not built yet in this session; planned as a Coq proof (see DESIGN.md section 3)"
 NOT_APPLICABLE = {p: _NYI for p in
-                  ["C06", "C07", "C08", "C09", "C10", "C11", "C12", "C13", "C14", "C15", "C16",
+                  ["C08", "C09", "C10", "C11", "C12", "C13", "C14", "C15", "C16",
                    "C17", "C18", "C19", "C20"]}
 
 NOTES = ("All checks share harness/check.py. Exit 0 = property held on everything explored; exit 1 + VIOLATION line "
